@@ -173,6 +173,17 @@ func createXmlNamespaces(attrs []xml.Attr) []XmlNamespace {
 
 			ret = append(ret, ns)
 		}
+
+		// A regular declaration, xmlns:prefix="uri", is reported by
+		// encoding/xml with the space "xmlns" and the prefix as local name.
+		if i.Name.Space == xmlns && i.Name.Local != xmlns {
+			ns = XmlNamespace{
+				prefix: i.Name.Local,
+				value:  i.Value,
+			}
+
+			ret = append(ret, ns)
+		}
 	}
 
 	return ret
